@@ -476,7 +476,7 @@ func main() {
 	runner.Main(&runner.Harness{
 		ID:    "C03",
 		Level: "model_checking",
-		Rule:  "client->upstream and upstream->client payloads {0,1,3,chunk+1 bytes, position-coded} in 1-2 writes x who finishes first {client half-closes, upstreams half-close, both, client aborts, upstream aborts mid-stream} x 1 or 2 peers per upstream (and a first attempt against a two-peer upstream whose second peer refuses, followed by a retry) x upstream transport with/without half-close x matcher in front of the proxy needing 1 or 3 bytes (so the stream starts in the prefetch buffer), plus a client stream of limit+chunk+5 bytes behind a matcher needing limit-3 bytes (the matching buffer overshoots the limit under any unaligned read); every interleaving of the handler's goroutines, client and upstream threads, every short read, the last bytes of either side alone or together with end-of-stream, within the joint deviation budget (delay bounding: every scheduling choice other than 'continue, else lowest thread id' costs one; 3 for the 3-byte/1-byte single-peer exchange of every close order and transport, 2 otherwise; +1 and a wider core in thorough)",
+		Rule:  "client->upstream and upstream->client payloads {0,1,3,chunk+1 bytes, position-coded} in 1-2 writes x who finishes first {client half-closes, upstreams half-close, both, client aborts, upstream aborts mid-stream} x 1 or 2 peers per upstream (and a first attempt against a two-peer upstream whose second peer refuses, followed by a retry) x upstream transport with/without half-close x matcher in front of the proxy needing 1 or 3 bytes (so the stream starts in the prefetch buffer), plus a client stream of limit+chunk+5 bytes behind a matcher needing limit-3 bytes (the matching buffer overshoots the limit under any unaligned read); every interleaving of the handler's goroutines, client and upstream threads, every short read, the last bytes of either side alone or together with end-of-stream, within the joint deviation budget (delay bounding: every scheduling choice other than 'continue, else lowest thread id' costs one; 3 for the 3-byte/1-byte single-peer exchange of every close order and transport, 2 otherwise; +1 and a wider core in thorough); clients that stay silent for 5 s (longer than the matching timeout) before their last write, behind one route and behind a consuming route followed by a second matching round",
 		Assumptions: []string{
 			"payload sizes up to one prefetch chunk + 1, not MiB; kernel socket buffers are unbounded in the virtual network",
 			"TLS-terminated downstream is covered for byte-exactness by C01, not here",
